@@ -19,6 +19,8 @@ Requests: `split.sha <hex>`                → `<sha1>,<sha256>`
                                               Spec: `pass` / `fail:<why>` — the oracle on GO: accepted ⇒ every recorded hash,
                                               size and file is that of exactly the byte range the format defines
           `split.resolve SEGS GO`          → the same for `Split` + `ResolveApk`
+(the sizes of the reads the harness's source answers do not enter the request: the model is handed chunks of 4096 bytes
+and `stream_exact` says the chunking cannot matter; the real code is run on scripted chunkings)
 -/
 namespace Apko.Driver.Split
 open Apko Apko.Authentic Apko.ExpandSplit
@@ -153,12 +155,12 @@ def handle (args : List String) : Option String :=
     let segs := parseSegs segs
     let G := mkGz segs (parseTars segs tars)
     let src := segs.flatMap Seg.bytes
-    let impl := match Impl.expandStream G H src with
+    let impl := match Impl.expandStream G H (fun _ => 4096) src with
       | .ok o => showOut G o
       | .error e => "err " ++ showErr e
     let v := verdict go (specLine G src)
     -- the one listed way to be accepted against the format: the loop left at the end of the source before the data branch ran
-    let cls := match Impl.expandStream G H src with
+    let cls := match Impl.expandStream G H (fun _ => 4096) src with
       | .ok o => if !o.checked then "F05f" else "unlisted"
       | .error _ => "unlisted"
     some (impl ++ "\t" ++ v ++ "\t" ++ (if v = "pass" then "-" else cls))
